@@ -9,7 +9,7 @@ import warnings
 from datetime import datetime, timezone, timedelta
 
 from ..core import hx
-from ..ref import wire, keys as RK, sig as RS, armor
+from ..ref import wire, keys as RK, sig as RS, armor, grammar
 from .. import pool, sigwork, gpgx
 
 LEVEL = 'exploration'
@@ -17,7 +17,7 @@ RULE = ('case = (direction, signer algorithm, hash, signature kind/type, option 
         'non-trivial = carries at least one optional subpacket, or a non-document subject, or a hash other than SHA-256; '
         'distinct = distinct case descriptors')
 ASSUMPTIONS = ['cryptography/OpenSSL public-key primitives', 'vf.ref.sig (validated on all fixture self-signatures)', 'gpg 2.2 when present (second acceptor, lenient on subpacket content)']
-MIN_COUNTERS = {'quick': {'pgpy_made_ref_verified': 150, 'pgpy_made_reimport_verified': 150, 'ref_made_pgpy_verified': 150},
+MIN_COUNTERS = {'quick': {'pgpy_made_ref_verified': 150, 'pgpy_made_reimport_verified': 150, 'ref_made_pgpy_verified': 150, 'uid_certifications_verified_after_transport': 150},
                 'thorough': {'pgpy_made_ref_verified': 800, 'ref_made_pgpy_verified': 800}}
 BUDGET = {'quick': (600, 1500), 'thorough': (1500, 3600)}
 TECHNIQUE = 'runtime monitoring: differential reference-model monitor (independent RFC 4880 5.2.4 verifier and signer) + GnuPG second oracle'
@@ -73,6 +73,16 @@ def cases(tier, seed):
         for o in REVOKE_OPTS:
             for kind in ('revoke-key', 'revoke-subkey', 'revoke-uid'):
                 cs.append({'d': 'A', 'signer': s, 'kind': kind, 'hash': 'SHA256', 'opts': o})
+    # U: awkward user ids, both directions
+    us = ['ed25519_0', 'rsa1024_0', 'ecdsa_p256_0'] if tier == 'quick' else signers
+    for j in range(len(UIDS)):
+        for n_, sname in enumerate(us):
+            if tier == 'quick' and (j + n_) % 3:
+                continue
+            cs.append({'d': 'U', 'dir': 'A', 'u': j, 'signer': sname})
+            cs.append({'d': 'U', 'dir': 'B', 'u': j, 'raw': False, 'signer': sname, 'style': ['plain', 'len5', 'old-headers'][(j + n_) % 3]})
+    for j in range(len(RAW_UIDS)):
+        cs.append({'d': 'U', 'dir': 'B', 'u': j, 'raw': True, 'signer': us[j % len(us)], 'style': 'plain'})
     # B: reference signer -> PGPy
     i = 0
     for s in signers:
@@ -128,11 +138,96 @@ def _mkopts(o, k, pgpy):
     return out
 
 
+# user ids that are valid UTF-8 but awkward: not NFC (combining marks, compatibility characters, conjoining jamo), bidi controls, ZWJ emoji,
+# odd spacing and bracket structure, very long; and octets that are not UTF-8 at all (other producers write Latin-1)
+UIDS = ['Cafe\u0301 Ame\u0301lie <amelie@example.org>', '\u212bngstro\u0308m (\ufb01ne) <a@example.org>', '\u1112\u1161\u11ab\u1100\u1173\u11af <han@example.org>',
+        '\u202eright-to-left\u202c <rtl@example.org>', '\U0001f468\u200d\U0001f469\u200d\U0001f467 family <f@example.org>', '  leading and trailing  ',
+        'tab\tinside <t@example.org>', 'Name (comment (nested)) <n@example.org>', '<only@example.org>', 'no brackets at all', '(only a comment)',
+        'x' * 300 + ' <long@example.org>', 'A\u00a0B\u2003C <nbsp@example.org>', '\u00c5\u0041\u030a same glyph twice <same@example.org>', 'e\u0301\u0301\u0301 stacked',
+        '\ufeffBOM first <bom@example.org>', 'ǆ ǅ ǆ titlecase digraphs', '\u1e9b\u0323 long s with dots <s@example.org>']
+RAW_UIDS = [b'Latin-1 J\xfcrgen <j@example.org>', b'\xff\xfe not text', b'half \xe2\x82 sequence <h@example.org>', b'', b'nul \x00 inside']
+
+
+def _U(ctx, d, pgpy):
+    """certifications over awkward user ids, both directions, self and third party, after every kind of transport"""
+    from pgpy.constants import KeyFlags, SignatureType
+    from .. import foreignkey
+    sm = pool.mat(d['signer'])
+    cert = sigwork.target_key()
+    cm = pool.mat('ed25519_3')
+    if d['dir'] == 'A':
+        text = UIDS[d['u']]
+        k = pool.pgpy_bare(d['signer'])
+        uid = pgpy.PGPUID()
+        from pgpy.packet.packets import UserID
+        up = UserID()
+        up.uid = text
+        up.update_hlen()
+        uid |= up
+        k.add_uid(uid, usage={KeyFlags.Certify, KeyFlags.Sign})
+        uid |= cert.certify(uid, SignatureType.Casual_Cert)
+        for form in ('bytes', 'armor', 'public'):
+            ctx.count('evaluations')
+            blob = bytes(k) if form == 'bytes' else (str(k) if form == 'armor' else bytes(k.pubkey))
+            k2, _ = pgpy.PGPKey.from_blob(blob)
+            raw = bytes(k2)
+            tk = grammar.parse_keys(wire.split(raw))[0]
+            ubody, sigs = tk['uids'][0][0].body, tk['uids'][0][1]
+            if ubody != text.encode('utf-8'):
+                ctx.fail('user-id-octets-changed-in-transport', {'uid': text, 'form': form, 'got': hx(ubody)[:120], 'expected': hx(text.encode('utf-8'))[:120]})
+            prim = RK.parse_pub(tk['primary'].body)['pubbody']
+            for s_ in sigs:
+                ps = RS.parse_sig(s_.body)
+                who = sm if RS.issuer(ps) == RK.keyid_of(sm) else cm
+                ok, why = RS.verify(ps, who, RS.hash_input(ps, primary=prim, uid=text.encode('utf-8')))
+                if not ok:
+                    ctx.fail('reference-rejects-pgpy-signature', {'uid': text, 'form': form, 'why': why, 'self': who is sm})
+                else:
+                    ctx.count('pgpy_made_ref_verified')
+            for verifier, label in ((k2 if k2.is_public else k2.pubkey, 'self'), (cert.pubkey, 'third-party')):
+                res, det = sigwork.pgpy_verify(verifier, k2.userids[0])
+                n = len(list(det.good_signatures)) if res == 'true' else 0
+                if res != 'true' or n < 1:
+                    ctx.fail('pgpy-rejects-own-signature-after-reimport', {'uid': text, 'form': form, 'which': label, 'result': res})
+                else:
+                    ctx.count('uid_certifications_verified_after_transport')
+    else:
+        rawuid = RAW_UIDS[d['u']] if d['raw'] else UIDS[d['u']].encode('utf-8')
+        blob, info = foreignkey.build(d['signer'], None, d['style'], uid=rawuid)
+        # a third-party certification by the reference over the same octets
+        prim = RK.pub_body(pool.mat(d['signer'], 1500000000))
+        h, u = RS.std_areas(cm, 1600000000)
+        tb = RS.sign(cm, 0x12, 8, h, u, primary=prim, uid=rawuid)
+        blob += wire.new_hdr(2, len(tb)) + tb
+        ctx.count('evaluations')
+        try:
+            k, _ = pgpy.PGPKey.from_blob(blob)
+        except Exception as e:
+            ctx.fail('pgpy-cannot-load-reference-signature', {'uid': hx(rawuid)[:80], 'err': repr(e)[:160], 'what': 'key with this user id'})
+            return
+        for form in ('direct', 'reexported', 'public-reexported'):
+            kk = k if form == 'direct' else pgpy.PGPKey.from_blob(bytes(k) if form == 'reexported' else bytes(k.pubkey))[0]
+            if not kk.userids:
+                ctx.fail('pgpy-rejects-reference-signature', {'uid': hx(rawuid)[:80], 'form': form, 'result': 'identity missing after load'})
+                continue
+            for verifier, label in ((kk if kk.is_public else kk.pubkey, 'self'), (cert.pubkey, 'third-party')):
+                res, det = sigwork.pgpy_verify(verifier, kk.userids[0])
+                n = len(list(det.good_signatures)) if res == 'true' else 0
+                if res != 'true' or n < 1:
+                    ctx.fail('pgpy-rejects-reference-signature', {'uid': hx(rawuid)[:80], 'form': form, 'which': label, 'result': res, 'style': d['style']})
+                else:
+                    ctx.count('ref_made_pgpy_verified')
+                    ctx.count('uid_certifications_verified_after_transport')
+    ctx.nontrivial(d)
+
+
 def run_case(ctx, d):
     import pgpy
     with warnings.catch_warnings():
         warnings.simplefilter('ignore')
-        if d['d'] == 'A':
+        if d['d'] == 'U':
+            _U(ctx, d, pgpy)
+        elif d['d'] == 'A':
             _A(ctx, d, pgpy)
         elif d['d'] == 'B':
             _B(ctx, d, pgpy)
